@@ -75,6 +75,7 @@ type genPkg struct {
 }
 
 type generator struct {
+	elemNonNil bool // the value being filled is an element of a list / map: pointers are set (lists hold no nil elements)
 	req   *GenRequest
 	pkgs  map[string]*genPkg // by package path
 	work  []*types.Named
@@ -249,13 +250,24 @@ func (g *generator) fill(gp *genPkg, w *strings.Builder, ind string, t types.Typ
 		if genIsBigInt(el) {
 			b := tmp("b")
 			fmt.Fprintf(w, "%s%s := vBig(%s)\n%svAssume(%s.Sign() >= 0)\n", ind, b, name, ind, b)
+			if g.elemNonNil {
+				g.elemNonNil = false
+				fmt.Fprintf(w, "%s%s = %s\n", ind, lv, b)
+				return
+			}
 			fmt.Fprintf(w, "%s%s = (%s)(vNilIf(vBool(%s+\".nil\"), %s.Pointer(%s)))\n", ind, lv, ty, name, us, b)
 			return
 		}
 		e := tmp("e")
+		nonNil := g.elemNonNil
+		g.elemNonNil = false
 		fmt.Fprintf(w, "%s%s := new(%s)\n", ind, e, gp.ts(el))
 		g.fill(gp, w, ind, el, "(*"+e+")", name, depth+1)
-		fmt.Fprintf(w, "%s%s = (%s)(vNilIf(vBool(%s+\".nil\"), %s.Pointer(%s)))\n", ind, lv, ty, name, us, e)
+		if nonNil {
+			fmt.Fprintf(w, "%s%s = %s\n", ind, lv, e)
+		} else {
+			fmt.Fprintf(w, "%s%s = (%s)(vNilIf(vBool(%s+\".nil\"), %s.Pointer(%s)))\n", ind, lv, ty, name, us, e)
+		}
 	case *types.Array:
 		i := tmp("i")
 		fmt.Fprintf(w, "%sfor %s := range %s {\n", ind, i, lv)
@@ -266,14 +278,18 @@ func (g *generator) fill(gp *genPkg, w *strings.Builder, ind string, t types.Typ
 		fmt.Fprintf(w, "%sfor %s, %s := 0, vChoice(%s+\".len\", vGenMaxLen()+1); %s < %s; %s++ {\n", ind, i, k, name, i, k, i)
 		e := tmp("e")
 		fmt.Fprintf(w, "%s\tvar %s %s\n", ind, e, gp.ts(u.Elem()))
+		g.elemNonNil = true
 		g.fill(gp, w, ind+"\t", u.Elem(), e, name+"+\"[]\"", depth+1)
+		g.elemNonNil = false
 		fmt.Fprintf(w, "%s\t%s = append(%s, %s)\n%s}\n", ind, lv, lv, e, ind)
 	case *types.Map:
 		kv, vv := tmp("mk"), tmp("mv")
 		fmt.Fprintf(w, "%sif vBool(%s + \".hasEntry\") {\n", ind, name)
 		fmt.Fprintf(w, "%s\tvar %s %s\n%s\tvar %s %s\n", ind, kv, gp.ts(u.Key()), ind, vv, gp.ts(u.Elem()))
 		g.fill(gp, w, ind+"\t", u.Key(), kv, name+"+\".key\"", depth+1)
+		g.elemNonNil = true
 		g.fill(gp, w, ind+"\t", u.Elem(), vv, name+"+\".value\"", depth+1)
+		g.elemNonNil = false
 		fmt.Fprintf(w, "%s\t%s = %s{%s: %s}\n%s}\n", ind, lv, ty, kv, vv, ind)
 	case *types.Struct:
 		for i := 0; i < u.NumFields(); i++ {
@@ -422,8 +438,10 @@ func GenerateTypeSupport(repo, harnessDir, genDir string, req *GenRequest) ([]st
 		var sb strings.Builder
 		fmt.Fprintf(&sb, "// Code generated by gosmt from the struct definitions of the current source tree. DO NOT EDIT.\npackage %s\n\n", gp.pkg.Name())
 		var paths []string
-		for p := range gp.imports {
-			paths = append(paths, p)
+		for p, alias := range gp.imports {
+			if strings.Contains(gp.body.String(), alias+".") {
+				paths = append(paths, p)
+			}
 		}
 		sort.Strings(paths)
 		if len(paths) > 0 {
